@@ -918,6 +918,47 @@ func bridgeOnce(rc *RunCtx, wl, fl *Stream, primary bool) {
 	tc := &treeCache{}
 	var shape evHash
 	shape.addString(text)
+	// a long-lived runner: before the formula proper it has seen dozens of calls that had to be
+	// refused (wrong argument count, an argument that cannot be converted); it must serve the
+	// formula like a new one
+	var worn *formula.Runner
+	if wl.Intn(16) == 0 {
+		for try := 0; try < 30 && worn == nil; try++ {
+			c := g.call(w.funcs[names[wl.Intn(len(names))]], 0, wl.Intn(3) != 0)
+			t := &bEval{w: w, perFn: map[string]int{}, cells: map[string]int64{}}
+			if _, st := t.eval(c); st != stError || t.n != 0 || t.mustName == "" {
+				continue
+			}
+			ctext := c.text()
+			src, perr := tc.parse(ctext, false)
+			if perr != nil {
+				continue
+			}
+			worn = formula.NewRunner()
+			worn.SetThis(data)
+			w.runner = worn
+			k := 40 + wl.Intn(100)
+			for i := 0; i < k; i++ {
+				w.log, w.n, w.failAt = nil, 0, 0
+				var err error
+				var pan interface{}
+				func() {
+					defer func() {
+						if p := recover(); p != nil {
+							pan = p
+						}
+					}()
+					_, err = worn.Resolve(ctx, src.Expression)
+				}()
+				if pan != nil || err == nil || len(w.log) > 0 {
+					rc.violation("a call that must be refused is refused every time", "refused-call-burst", "`"+ctext+"` evaluated "+strconv.Itoa(i+1)+" times on one runner: err="+errText(err)+" panic="+panicStr(pan)+" invocations="+strconv.Itoa(len(w.log))+" ; functions: "+strings.Join(sample.Funcs, " | "))
+					break
+				}
+			}
+			shape.addString("worn:" + ctext)
+			rc.probe("runner_worn_by_refused_calls_before_the_formula")
+		}
+	}
 	for _, failAt := range faultPositions {
 		ev := &bEval{w: w, failAt: failAt, perFn: map[string]int{}, cells: map[string]int64{}}
 		wantV, st := ev.eval(root)
@@ -926,6 +967,9 @@ func bridgeOnce(rc *RunCtx, wl, fl *Stream, primary bool) {
 		placeFuncs()
 		r := formula.NewRunner()
 		r.SetThis(data)
+		if worn != nil {
+			r = worn // the data map is the same object; placeFuncs has put fresh stubs into it
+		}
 		w.runner = r
 		var got interface{}
 		var err error
